@@ -278,6 +278,13 @@ theorem C19_source_padded_width (W : Nat) (l : Line) :
   unfold Line.padded Text.padded
   rw [GenBridge.padFoldSrc_eq]
 
+/-- **`LineType::wrapped_height` as read from the source** (the rounding of `padded_width / width` and the bound `usize::max(…, 1)`,
+`tools/gen_padded.py`): the rows the model counts for a line are the source's formula on the padded width — which
+`C19_source_padded_width` ties to the source's loop. (Modelled, not read: the `f64` quotient of two integers below 2^53 followed by
+`ceil` as the exact ceiling; widths from one column upwards.) -/
+theorem C19_source_wrapped_height (W : Nat) (l : Line) :
+    wrappedHeight W l = Generated.wrappedHeightSrc (l.padded W) W := GenBridge.wrappedHeightSrc_eq W l
+
 /-- non-vacuity: glyphs of 1, 1, 2 columns on three columns — one column of padding, as the source's loop counts it; 1, 2, 1: none -/
 example : ([1, 1, 2].map (fun w => ({ cp := 120, w := w } : Glyph))).foldl (fun a g => Generated.padStepSrc 3 a.1 a.2 g.w) (0, 0) = (5, 1) ∧
     ([1, 2, 1].map (fun w => ({ cp := 120, w := w } : Glyph))).foldl (fun a g => Generated.padStepSrc 3 a.1 a.2 g.w) (0, 0) = (4, 0) := by
